@@ -124,19 +124,25 @@ def readLines (lower : Bool) : RS → List (List Char) → Res RS
     | .err e => .err e
     | .unmodelled => .unmodelled
 
+def Res.map {α β : Type} (g : α → β) : Res α → Res β
+  | .ok a => .ok (g a)
+  | .err e => .err e
+  | .unmodelled => .unmodelled
+
+/-- `BasicInterpolation._interpolate_some` as a scanner; `pending` = the previous character was an
+unconsumed `%`.  `%%` → `%`; `%(`… is a reference to another option (not modelled); `%` followed by
+anything else, or at the end, is `InterpolationSyntaxError`. -/
+def interpGo : Bool → List Char → Res (List Char)
+  | false, [] => .ok []
+  | true, [] => .err .interpolationSyntax
+  | false, c :: r => if c = '%' then interpGo true r else (interpGo false r).map (c :: ·)
+  | true, c :: r =>
+    if c = '%' then (interpGo false r).map ('%' :: ·)
+    else if c = '(' then .unmodelled
+    else .err .interpolationSyntax
+
 /-- `BasicInterpolation.before_get` on one value. -/
-def interpolate : List Char → Res (List Char)
-  | [] => .ok []
-  | '%' :: '%' :: r =>
-    match interpolate r with
-    | .ok t => .ok ('%' :: t)
-    | e => e
-  | '%' :: '(' :: _ => .unmodelled
-  | '%' :: _ => .err .interpolationSyntax
-  | c :: r =>
-    match interpolate r with
-    | .ok t => .ok (c :: t)
-    | e => e
+def interpolate (v : List Char) : Res (List Char) := interpGo false v
 
 def interpItems : List (Name × List Char) → Res (List (Name × List Char))
   | [] => .ok []
@@ -158,6 +164,26 @@ def cfgItems (lower interp : Bool) (text : List Char) : Res (List (Name × List 
     if st.perr then .err .parsing
     else if !st.sect then .err .noSection
     else if interp then interpItems st.items else .ok st.items
+
+/-! ## the domain of the config round trip (used by the theorems and, through the driver, by the harness) -/
+
+/-- non-empty, and neither the first nor the last character is whitespace (so `strip` is the identity). -/
+def noSpaceEnds (s : List Char) : Bool :=
+  match s with
+  | [] => false
+  | c :: _ => !isSpace c && (match s.reverse with | d :: _ => !isSpace d | [] => false)
+
+/-- Option names a config file can carry: non-empty, `strip()`-stable, without newline or delimiter,
+not starting a comment or a section header; and, while the parser lower-cases names, ASCII without
+upper-case letters (non-ASCII names are outside the model of `str.lower`). -/
+def safeName (lower : Bool) (n : Name) : Bool :=
+  noSpaceEnds n && n.all (fun c => c != '\n' && !isDelim c) &&
+  (match n with | c :: _ => c != '#' && c != ';' && c != '[' | [] => false) &&
+  (!lower || n.all (fun c => isAscii c && asciiLower c == c))
+
+/-- Values: non-empty, `strip()`-stable, one line; and, while the parser interpolates, without `%`. -/
+def safeValue (interp : Bool) (v : List Char) : Bool :=
+  noSpaceEnds v && v.all (fun c => c != '\n') && (!interp || v.all (fun c => c != '%'))
 
 /-! ## `Theme.from_file` -/
 
